@@ -53,6 +53,7 @@ class Gen:
             'wa': r.random() < 0.7,
             'dirty': r.randrange(2),
             'flag_order': r.randrange(3),
+            'reuse': r.random() < 0.5,     # the same AnsiSetting argument object is handed to several calls
         }
         self.steps = r.randint(60, 120) if long_run else r.randint(4, 25)
         self.alphabet = r.choice(TEXT_POOLS)
@@ -82,6 +83,10 @@ class Gen:
             pick.extend(r.sample([x for x in atoms.BY_CLASS['odd'] if x in usable], r.choice([1, 2])))
         if r.random() < 0.15:
             pick.extend(r.sample([x for x in atoms.BY_CLASS['invalid'] if x in usable], 1))
+        if r.random() < 0.5:
+            # any atom of the catalogue (spellings that are in no group-sharing set would otherwise never be drawn)
+            rest = [x for x in sorted(usable) if atoms.CATALOGUE[x].cls in ('plain', 'pair')]
+            pick = r.sample(rest, r.choice([1, 2])) + pick
         pick = [p for p in dict.fromkeys(pick) if atoms.CATALOGUE[p].cls in allow or atoms.CATALOGUE[p].cls not in
                 ('multi', 'reset')]
         if len([p for p in pick if atoms.CATALOGUE[p].cls in ('plain', 'pair')]) < 2:
@@ -607,7 +612,8 @@ class Gen:
             ch = r.choice(o.text) if o.text else 'a'
             ch = ch if ch.isalnum() else 'a'
             pat = r.choice(['%s+' % ch, '[a-z]', '%s*' % ch, '(?<=%s).' % ch, '.', '%s|b' % ch, '\\w\\w', '', '\\b', '[^a]+',
-                            '(?=%s)' % ch, '.?'])
+                            '(?=%s)' % ch, '.?', '%s*?' % ch, '%s??' % ch, '.*?', '|%s' % ch, '\\b|%s' % ch, '^|%s' % ch,
+                            '%s+?' % ch, '(?:%s|)' % ch, '$|.', '(%s)|(.)' % ch, '\\s*', '.{2}', '(?i:%s)' % ch.upper()])
         else:
             pat = self.pattern(o)
             if r.random() < 0.15:
@@ -661,6 +667,8 @@ class Gen:
                       'isidentifier', 'islower', 'isnumeric', 'isprintable', 'isspace', 'istitle', 'isupper'])
         op = {'op': 'query', 'r': s, 'q': q}
         if q == 'settings_at':
+            if r.random() < 0.3:
+                op['scribble'] = True
             op['idx'] = [r.choice([-1, 0, n - 1, n, n + 1, r.randint(0, max(0, n)), -n, 10 ** 6]) for _ in range(4)]
             cps = o.change_points()
             if cps:
